@@ -45,13 +45,25 @@ def main(argv=None):
         try:
             info = mod.run(ctx)
         except report.AnalysisError as ex:
-            # part of the analysis could not be carried out.  If violations were already established they are
-            # reported (exit 1) with the failure as a note; otherwise the run is analysis-broken (exit 2).
-            known = {k["key"] for k in report.load_known() if k.get("status") == "known"}
-            if not [f for f in ctx.findings if f.key not in known]:
-                raise
-            ctx.shortfalls.append("analysis incomplete: %s" % ex)
-            info = dict(explanation="analysis incomplete (%s); the violations found before that point are reported" % ex,
+            if type(ex).__name__ in ("Untranslatable", "HasLoop", "Unsupported", "Uninterpretable"):
+                # a construct one of the engines cannot interpret reached the top of the rule module: by the verdict policy
+                # (DESIGN.md 0a) an obligation that cannot be discharged at code that exists is a violation, not an analysis
+                # failure - the rules that were evaluated before it keep their verdicts
+                ctx.violation("R%s-ENGINE" % prop[1:], "PyXAB", prop, "construct outside the analysed subset",
+                              "obligation not discharged: the code uses a construct the analysis cannot interpret (%s)" % ex)
+                ex = None
+                info = dict(explanation="the analysis stopped at a construct it cannot interpret; it is reported as an undischarged obligation",
+                            assumptions=[], technique="")
+            if ex is None:
+                pass
+            else:
+              # part of the analysis could not be carried out.  If violations were already established they are
+              # reported (exit 1) with the failure as a note; otherwise the run is analysis-broken (exit 2).
+              known = {k["key"] for k in report.load_known() if k.get("status") == "known"}
+              if not [f for f in ctx.findings if f.key not in known]:
+                raise ex
+              ctx.shortfalls.append("analysis incomplete: %s" % ex)
+              info = dict(explanation="analysis incomplete (%s); the violations found before that point are reported" % ex,
                         assumptions=[], technique="")
         known_keys = {k["key"] for k in report.load_known() if k.get("status") == "known"}
         has_new = bool([f for f in ctx.findings if f.key not in known_keys])
